@@ -56,6 +56,14 @@ static std::vector<Byte> render_int(State &s, const Val &v, char conv, bool is_s
     std::vector<unsigned> feas;
     for (unsigned i = 0; i < cls.size(); i++) if (may_be_true(s, cls[i])) feas.push_back(i);
     if (feas.empty()) throw PathEnd{"infeasible"};
+    if (OPT.render_classes && feas.size() > OPT.render_classes)
+    {
+      // bounded exploration of digit-count classes (stated in the evidence): shortest, longest and evenly spaced ones in between
+      std::vector<unsigned> keep; unsigned n = OPT.render_classes;
+      for (unsigned k = 0; k < n; k++) keep.push_back(feas[(size_t)k * (feas.size() - 1) / (n > 1 ? n - 1 : 1)]);
+      ST.pruned_render += feas.size() - keep.size();
+      feas = keep;
+    }
     if (feas.size() > 1) { ForkReq fr; for (unsigned i : feas) fr.alts.push_back(cls[i]); throw fr; }
     chosen = feas[0];
     add_constraint(s, cls[chosen]);
@@ -286,6 +294,18 @@ static int EXIT_HOOK_OBJ = -1;
 static bool call_external(State &s, const CallInst *ci, const std::string &name, std::vector<Val> &args)
 {
   Type *rt = ci->getType();
+  // multi-target pointers are accepted only where a source string is read (read_cstr); everything else is resolved first
+  for (size_t ai = 0; ai < args.size(); ai++)
+  {
+    if (!args[ai].multi) continue;
+    bool src_ok = false;
+    if ((name == "snprintf" && ai >= 3) || (name == "sprintf" && ai >= 2) || (name == "printf" && ai >= 1) || (name == "fprintf" && ai >= 2)) src_ok = true;
+    if ((name == "strcpy" || name == "strcat") && ai == 1) src_ok = true;
+    if (name == "strlen" || name == "strcmp" || name == "strcasecmp" || name == "strncmp" || name == "strncasecmp" || name == "puts") src_ok = true;
+    if (name == "fputs" && ai == 0) src_ok = true;
+    if (name == "symx_note_str" && ai == 1) src_ok = true;
+    if (!src_ok) args[ai] = resolve_ptr(s, args[ai]);
+  }
   auto ret_int = [&](uint64_t v) { if (!rt->isVoidTy()) set_reg(s, ci, rt->isPointerTy() ? [&] { Val p = mk_int(64, v); p.isptr = true; return p; }() : mk_int(rt->getIntegerBitWidth(), v)); };
   auto ret_val = [&](const Val &v) { if (!rt->isVoidTy()) set_reg(s, ci, v); };
 
